@@ -88,7 +88,7 @@ def _same_reply(a: Any, b: Any) -> bool:
 
 FAMILIES = {'server.exactly_once': fam_exactly_once}
 PLAN = {
-    'quick': {'server.exactly_once': 12000},
+    'quick': {'server.exactly_once': 120000},
     'thorough': {'server.exactly_once': 100000},
 }
 THOROUGH_BUDGET_S = 600
